@@ -360,6 +360,8 @@ def _havoc_command_code(ctx, frame, G, EV):
 class OuterLoop:
     """`while not buffer_depleted:`"""
 
+    kind = "while"
+
     def __init__(self, G, EV, strict, site):
         self.G, self.EV, self.strict, self.site = G, EV, strict, site
 
@@ -411,6 +413,8 @@ class OuterLoop:
 
 class InnerLoop:
     """`while event is not None:`"""
+
+    kind = "while"
 
     def __init__(self, G, EV, strict, site):
         self.G, self.EV, self.strict, self.site = G, EV, strict, site
